@@ -63,6 +63,10 @@ DlvKeep(c) ==
     /\ (s.via = "ref") => (s.lay = 3) = (s.n >= 256)        \* layouts 1 and 5 small, layout 3 (odd record size) large
     /\ (s.faces.on /\ s.faces.quads) => s.faces.lt = "uint"
     /\ (s.faces.on /\ ~s.faces.quads) => s.faces.lt = "int"
+    \* large files: 4-byte counts under every delivery, 1-byte counts only under the buffered entry points
+    /\ (s.n >= 256 /\ s.faces.on) => /\ s.faces.quads = (s.faces.ct = "uint")
+                                     /\ (s.faces.ct = "uchar" => s.dlv.kind \in {"bufio", "file"})
+    /\ (s.n >= 256 /\ ~s.faces.on) => s.dlv.kind \in {"chunk", "file"}
 \* BYTES: all 256 values of every 8-bit channel, bit-exact, every encoding, every layout, via both paths
 BytePlan ==
     {Ser("byte", via, n, l, fc, fmt, dlv, "bits") :
